@@ -2084,6 +2084,12 @@ func mutateStruct(r *prng.Rng, v reflect.Value) string {
 		f.SetString(f.String() + strings.Repeat("g", 1+r.Intn(200)))
 		return "grow-string " + nm
 	case reflect.Slice:
+		if et := f.Type().Elem(); et.Kind() == reflect.Ptr && et.Elem().Kind() == reflect.Struct && f.Len() > 0 && r.Chance(1, 3) {
+			// a message that is an ELEMENT of the list changes in place (the list itself stays as it is)
+			if k := r.Intn(f.Len()); !f.Index(k).IsNil() {
+				return fmt.Sprintf("set-elem %s[%d] (%s)", nm, k, mutateStruct(r, f.Index(k)))
+			}
+		}
 		if r.Chance(1, 5) {
 			// emptied by re-slicing (buffer reuse): a non-nil slice of length zero
 			if f.Len() > 0 {
@@ -2113,9 +2119,14 @@ func mutateStruct(r *prng.Rng, v reflect.Value) string {
 		}
 		f.Set(reflect.Append(f, el))
 		return "append " + nm
+	case reflect.Interface:
+		// the member of a oneof that is set right now changes in place (the wrapper struct holds one field)
+		if !f.IsNil() && f.Elem().Kind() == reflect.Ptr && !f.Elem().IsNil() && f.Elem().Elem().Kind() == reflect.Struct {
+			return "set-oneof " + nm + " (" + mutateStruct(r, f.Elem()) + ")"
+		}
 	case reflect.Ptr:
 		if !f.IsNil() && r.Chance(1, 3) {
-			if sf := v.Type().Field(i); !strings.Contains(string(sf.Tag), ",req") {
+			if sf := v.Type().Field(i); !strings.Contains(string(sf.Tag), ",req") && !strings.Contains(string(sf.Tag), ",oneof") {
 				f.Set(reflect.Zero(f.Type()))
 				return "clear " + nm
 			}
@@ -2141,6 +2152,14 @@ func mutateStruct(r *prng.Rng, v reflect.Value) string {
 		f.SetBool(!f.Bool())
 		return "flip " + nm
 	case reflect.Map:
+		if et := f.Type().Elem(); et.Kind() == reflect.Ptr && et.Elem().Kind() == reflect.Struct && f.Len() > 0 && r.Chance(1, 2) {
+			// a message that is a VALUE of the map changes in place (keys in a fixed order: the choice is reproducible)
+			keys := f.MapKeys()
+			sort.Slice(keys, func(a, b int) bool { return fmt.Sprint(keys[a].Interface()) < fmt.Sprint(keys[b].Interface()) })
+			if k := keys[r.Intn(len(keys))]; !f.MapIndex(k).IsNil() {
+				return fmt.Sprintf("set-value %s[%v] (%s)", nm, k.Interface(), mutateStruct(r, f.MapIndex(k)))
+			}
+		}
 		if f.IsNil() {
 			f.Set(reflect.MakeMap(f.Type()))
 		}
@@ -2246,18 +2265,25 @@ func (rn *runner) history(t *Target, name string, steps int) {
 		b, err := cp.(FM).Marshal()
 		return b, err == nil
 	}
+	// MarshalTo into a buffer that is LARGER than needed (a pooled / pre-sized scratch buffer), with no Size() call
+	// of the caller in between: whatever sizes the code — or the runtime, for embedded messages it serves — remembers
+	// from earlier calls are stale by now
+	noSizeMarshalTo := func(step int) bool {
+		log = append(log, "MarshalTo(larger buffer, no Size() first)")
+		desc := map[string]interface{}{"type": t.where(name), "history": strings.Join(log, " ; ")}
+		if sig, what, want, got := rn.marshalToNoSize(t, name, m); sig != "" {
+			Violation("C09", "histories", "stale-state/"+sig, what, desc, want, got)
+			Count("histories", fmt.Sprint(desc), "stale", step, true)
+			return false
+		}
+		return true
+	}
 	for i := 0; i < steps; i++ {
 		Journal(fmt.Sprintf("C09 history %s %s", t.where(name), strings.Join(log, " ; ")))
 		op := rn.r.Intn(12)
 		switch op {
 		case 11:
-			// MarshalTo into a buffer that is LARGER than needed (a pooled / pre-sized scratch buffer), with no Size() call
-			// of the caller in between: whatever sizes the code remembers from earlier calls are stale by now
-			log = append(log, "MarshalTo(larger buffer, no Size() first)")
-			desc := map[string]interface{}{"type": t.where(name), "history": strings.Join(log, " ; ")}
-			if sig, what, want, got := rn.marshalToNoSize(t, name, m); sig != "" {
-				Violation("C09", "histories", "stale-state/"+sig, what, desc, want, got)
-				Count("histories", fmt.Sprint(desc), "stale", i, true)
+			if !noSizeMarshalTo(i) {
 				return
 			}
 		case 10:
@@ -2380,6 +2406,19 @@ func (rn *runner) history(t *Target, name string, steps int) {
 				m = cp
 			}
 		default:
+			// what the step is observed with. Not always a Marshal (which sizes the whole tree first): after a mutation, a
+			// Size or a runtime call the next thing may just as well be a MarshalTo that nobody sized for, or nothing at
+			// all, so that several changes and calls pile up before the next output
+			if op <= 4 {
+				if k := rn.r.Intn(8); k < 2 {
+					if !noSizeMarshalTo(i) {
+						return
+					}
+					continue
+				} else if k == 2 {
+					continue
+				}
+			}
 			how := []string{"Marshal", "csproto.Marshal", "GrpcCodec.Marshal"}[rn.r.Intn(3)]
 			log = append(log, how)
 			want, ok := expected()
